@@ -46,6 +46,12 @@ CHECKS = {
  "C16": dict(level="fault_enumeration", technique="explicit-state BFS over create-db/write/snapshot/shutdown/kill histories (SEQ) with exhaustive crash-point enumeration inside every step (CRASH)",
    text="All histories up to the bound over create-db d0..d2 / first write of a new key / rewrite / snapshot / clean shutdown+restart / kill+restart with the real replication loop (key-id registration, oplog-valid flag, oplog append); inside every step the directory before each mutating system call, and the state after the step, is restarted with the real start-up code: either the log was discarded or every record decodes (through the restarted node's id maps) to the database and key the writer was given; database ids and key ids unique in the live node and after every restart.",
    note="Known findings (listed): records of never-snapshotted databases survive in a valid log; a kill inside a database's first snapshot panics start-up. The driver keeps the writer's intent per op id.", design="7/C16"),
+ "C04": dict(level="model_checking", technique="explicit-state exploration (stateless replay + visited set) of an in-process cluster of real nodes: every FIFO-respecting interleaving of supervisor, replication-loop, link-delivery, acknowledgement and client transitions",
+   text="A 2-node (quick) / 2- and 3-node (thorough) cluster is brought up through the real join/election path (real supervisor and replication-loop futures polled by hand, real link threads taken over by hook H7, handlers on worker threads); scripted client operations (set, set-safe, remove, increment, create-db, create-user, set-permissions, snapshot; single operations at every node, pairs on the primary and across nodes; none- and newer-strategy databases) are then explored under every delivery order. At every quiescent state each node's databases and per-key (value, version, live/removed) must equal the primary's.",
+   note="Link model (handshake lines, FIFO queues, ok/error per command, EOF sequence) reproduces tcp_ops/auth_on_replication; op ids are rank-renamed per node in the state key. Known findings: writes issued on a secondary are applied twice there (version ahead), racing set-safe from two nodes can leave the secondary with its own value.", design="7/C04"),
+ "C14": dict(level="model_checking", technique="explicit-state exploration of the in-process cluster with per-link message counters and a step budget",
+   text="Every client-visible command (22 well-formed commands; none-, arbiter- and newer-strategy databases) is issued once on every node of a settled 2-node (quick) / 2- and 3-node (thorough) cluster; all delivery orders are explored with a step budget of 120 (about 6x the longest legitimate exchange). In every state: forwards to the primary <= 1, copies <= secondaries, acks <= copies, no request from a secondary to a non-primary; every path must reach silence with every copy acknowledged.",
+   note="ok/error transport replies are not counted. Known findings: resolve is replicated as two messages plus a marker forward per secondary (finite).", design="7/C14"),
 }
 
 def main():
